@@ -480,7 +480,9 @@ func (v *VM) execute(context *Context) error {
 		case OpLoad:
 			loaded := v.Args[v.Instructions[v.PC].Args[0]]
 			if !loaded.Value.IsValid() {
-				panic("OpLoad of invalid value")
+				// Either the argument was never bound, or a nil
+				// value was passed as an argument to a lambda.
+				return fmt.Errorf("can't use nil as the value of a lambda argument")
 			}
 			v.Stack = append(v.Stack, loaded)
 		case OpCallValue:
